@@ -58,7 +58,7 @@ Lemma step_refines s st k o : inv st -> Rel st k ->
   snd (step s st o) = snd (s_step s k o) /\ inv (fst (step s st o)) /\ Rel (fst (step s st o)) (fst (s_step s k o)) /\
   prefix (U st) (U (fst (step s st o))) /\ prefix (I st) (I (fst (step s st o))).
 Proof.
-  intros [Nu Ni Vt] [Ru Ri Rt Rc Rr]. destruct o as [c ids p|rows p|lo hi rem|].
+  intros [Nu Ni Vt] [Ru Ri Rt Rc Rr]. destruct o as [c ids p|rows cols p|lo hi rem|].
   - (* add_entities *)
     destruct c; cbn [step s_step].
     + pose proof (add_entities_refines (b_users st) (k_users k) ids p Ru Nu) as AR.
@@ -98,15 +98,15 @@ Proof.
     assert (Forall (valid UU II) (b_table st ++ new)) as Vall by (apply Forall_app; split; assumption).
     assert (has_dup_pair (map fst (b_table st ++ new)) = has_dup_idpair (map fst (k_recs k ++ map (dec UU II) new))) as HD.
     { rewrite <- Dall. apply has_dup_dec; assumption. }
-    rewrite <- Rr, <- HD.
+    rewrite <- Rr, <- HD, <- Rc.
     assert (forall rp,
-      inv {| b_users := us; b_items := is_; b_table := b_table st ++ new; b_cols := true; b_repeats := rp |} /\
-      Rel {| b_users := us; b_items := is_; b_table := b_table st ++ new; b_cols := true; b_repeats := rp |}
-          {| k_users := us'; k_items := is'; k_recs := k_recs k ++ map (dec UU II) new; k_cols := true; k_repeats := rp |}) as Done.
+      inv {| b_users := us; b_items := is_; b_table := b_table st ++ new; b_cols := or_cols (b_cols st) cols; b_repeats := rp |} /\
+      Rel {| b_users := us; b_items := is_; b_table := b_table st ++ new; b_cols := or_cols (b_cols st) cols; b_repeats := rp |}
+          {| k_users := us'; k_items := is'; k_recs := k_recs k ++ map (dec UU II) new; k_cols := or_cols (b_cols st) cols; k_repeats := rp |}) as Done.
     { intro rp. split; constructor; cbn; try assumption; try reflexivity. unfold U, I; cbn. fold UU II. symmetry. exact Dall. }
     assert (inv {| b_users := us; b_items := is_; b_table := b_table st; b_cols := b_cols st; b_repeats := b_repeats st |} /\
             Rel {| b_users := us; b_items := is_; b_table := b_table st; b_cols := b_cols st; b_repeats := b_repeats st |}
-                {| k_users := us'; k_items := is'; k_recs := k_recs k; k_cols := k_cols k; k_repeats := b_repeats st |}) as Failed.
+                {| k_users := us'; k_items := is'; k_recs := k_recs k; k_cols := b_cols st; k_repeats := b_repeats st |}) as Failed.
     { split; constructor; cbn; try assumption; try reflexivity. unfold U, I; cbn. fold UU II. symmetry. exact Dold. }
     destruct (b_repeats st); [| |].
     + destruct (has_dup_pair (map fst (b_table st ++ new))); cbn [fst snd]; (split; [reflexivity|]);
@@ -117,7 +117,7 @@ Proof.
     + cbn [fst snd]. split; [reflexivity|]. split; [apply Done|split; [apply Done|split; assumption]].
   - (* filter_interactions *)
     cbn [step s_step]. rewrite <- Rc.
-    destruct ((match lo, hi with None, None => false | _, _ => true end) && negb (b_cols st && s_ts s)).
+    destruct ((match lo, hi with None, None => false | _, _ => true end) && negb (has_ts s (b_cols st))).
     { cbn [fst snd]. split; [reflexivity|]. split; [constructor; assumption|]. split; [constructor; assumption|split; apply prefix_refl]. }
     assert (needs_table rem (b_users st) (b_items st) = needs_table rem (k_users k) (k_items k)) as NT.
     { destruct Ru as [Eu _]. destruct Ri as [Ei _]. unfold needs_table. clear -Eu Ei.
